@@ -1,5 +1,20 @@
 """Further generated tables; each emit_* is added as the property that needs it is built."""
+import re
+
+
+def blist(b):
+    return "[" + "; ".join("x%02x" % c for c in b) + "]"
 
 
 def emit(w, src, must):
-    pass
+    emit_codes(w, src, must)
+
+
+def emit_codes(w, src, must):
+    text = src("crates/sip-types/src/code.rs")
+    rows = re.findall(r'\[(\d+) => (\w+), "([^"]*)"\];', text)
+    must(len(rows) > 40, "status code table in code.rs")
+    w("(* status code -> default reason phrase (codes! in sip-types/src/code.rs) *)")
+    w("Definition code_reasons : list (N * list byte) :=")
+    w("  [" + ";\n   ".join("(%s, %s)" % (c, blist(t.encode())) for (c, _, t) in rows) + "].")
+    w("")
